@@ -245,6 +245,14 @@ def arm_only_err(ctx, body, br, vals):
     condition can rescue the path."""
     from rules.C12 import only_err_from
     arms = switch_arms(body, br)
+    # `guards` reports `!x` as a test on x with the arms swapped: swap back to find the real arm
+    e = switch_operand_expr(ctx, body, br)
+    flips = 0
+    while e[0] == "un" and e[1] == "Not" and body.blocks[br]["term"].get("op_ty", "bool") == "bool":
+        e = e[2]
+        flips += 1
+    if flips % 2:
+        vals = ({"otherwise"} if 0 in vals else set()) | ({0} if (set(vals) - {0}) else set())
     ok = True
     for v in vals:
         tgt = arms.get(v)
